@@ -74,7 +74,35 @@ ADDED = {
  "C19-r5a": "hyphenated source names that are prefixes / suffixes / concatenations of each other",
  "C20-r5a": "every generated file carries the same modification time; stale destination files of equal size",
  "C20-r5b": "a real .dsc among the listed files which lists the .changes file itself",
+ "C03-r6b": "runes whose case folding lands in ASCII (U+212A KELVIN SIGN, U+017F LONG S) inside version strings",
+ "C04-r6a": "possibilities whose restriction clauses come in every order, with a broken one among them (law on the error route)",
+ "C04-r6b": "tokens of exactly 16k - 1, 16k, 16k + 1 bytes for k = 1..8 (accumulator spill points), never trimmed",
+ "C05-r6a": "possibilities with 9 - 20 profile groups and all three kinds of restriction at once (sort.Slice stability shows from 13 elements)",
+ "C05-r6b": "a relationship field above 1 MiB through law-depbig (implementation only: parse, print, parse again)",
+ "C06-r6a": "real CPU names in their GNU spellings (i486, i586, i686, x86_64, aarch64) in the architecture pools",
+ "C07-r6a": "runs of up to millions of blank and comment lines in front of a stanza (goroutine stack bounded at 48 MiB)",
+ "C08-r6a": "a byte order mark / zero-width bytes in front of the first field name and of the armor header",
+ "C09-r6a": "two locally declared struct types of the same name and package path with different tags, encoded alternately",
+ "C10-r6a": "stanzas separated by CR LF blank lines and blank-line runs before end of input, through every reader entry point",
+ "C10-r6b": "typed documents that carry real Debian fields the struct does not declare, some in legacy syntax",
+ "C11-r6b": "keyrings of 64 - 100 entities edited in place (same backing array, same length) between verifications",
+ "C12-r6b": "a FileHash changed between Verifier() and Close()",
+ "C14-r6a": "control files with every relationship field dpkg knows, some in forms dependency.Parse refuses (law-debbig)",
+ "C14-r6b": "control members of several MiB (above any preallocation clamp), byte-exact comparison of the last field",
+ "C16-r6b": "decoy member names with a slash after the prefix (control./x, data./y) next to the real members",
+ "C18-r6a": "law-clzone: the same changelog text under time.Local = UTC, EST, CET, PST (run alone: core.ExclusiveOps)",
+ "C18-r6b": "law-idxdet: indexes of 70 - 200 stanzas with a slow-failing damaged stanza right in front of a fast-failing one, 25 calls under GOMAXPROCS 1 / 4 / 8 / 16",
+ "C19-r6a": "source names whose concatenations collide (ab + c = a + bc)",
+ "C20-r6a": "files listed only in Checksums-Sha256 / Checksums-Sha1 (an empty or missing Files field) present next to the control file",
 }
+FIRST6 = {}
+try:
+    for l in open("/verif/seeded/r6-first-run.txt"):
+        f = l.split()
+        if len(f) > 1:
+            FIRST6[f[0]] = f[1]
+except FileNotFoundError:
+    pass
 FIRST5 = {}
 try:
     for l in open("/verif/seeded/r5-first-run.txt"):
@@ -93,6 +121,8 @@ def row(m):
     if name in FIRST5:
         # round 5 was first run against the machinery as committed before the round (r5-first-run.txt)
         first = {"detected": FIRST5[name] == "VIOLATION"}
+    if name in FIRST6:
+        first = {"detected": FIRST6[name] == "VIOLATION"}
     if first is None or first.get("detected"):
         fr = "detected on the first run"
         if first and name in ADDED:
@@ -136,6 +166,17 @@ look-alike member names and the race detector, and were asked for what such a be
 the machinery as it was before the round (`r5-first-run.txt`): 20 detected, 20 missed.  After the extensions in the
 last column: 40 detected, 36 with a concrete failing input.
 
-""" + table("r5") + "\n"
+""" + table("r5") + """
+
+## Sixth round: the same brief once more, against the machinery after round 5
+
+Thirty-eight more (one author did not deliver).  The authors got the round-5 description of the bench extended by what
+round 5 added (colliding names, kept copies, hostile environment, lifecycle laws, hand-written zstd frames, huge
+declared sizes, long histories).  Run against the machinery as it was before the round (`r6-first-run.txt`):
+19 detected, 19 missed.  Two of the extensions the misses led to found a genuine defect in the unchanged library (a
+`Filename` field in a .dsc / .changes / control document moved the handle the *File entry points return: /repo 4a3d482,
+DESIGN.md 11.3).  After the extensions in the last column: 38 detected.
+
+""" + table("r6") + "\n"
 open("/verif/seeded/README.md", "w").write(readme)
 print("README written")
